@@ -503,7 +503,7 @@ fn space_wire(max_len: u32) -> Space {
 // which decoy files are planted at every level OUTSIDE it; whatever the real SimpleSymbolSupplier returns for a
 // module must lie inside the symbol directory
 
-const PLANT_TOKENS: [&str; 7] = ["x", ".", "..", "/", "\\", "C:", "\0"];
+const PLANT_TOKENS: [&str; 9] = ["x", ".", "..", "/", "\\", "C:", "\0", "%2e", "%2f"];
 const PLANT_ID: &str = "ABCD1234ABCD1234ABCDABCD12345678a";
 
 fn plant_tree() -> &'static (PathBuf, PathBuf) {
@@ -524,7 +524,7 @@ fn plant_tree() -> &'static (PathBuf, PathBuf) {
                     continue;
                 }
                 let _ = std::fs::create_dir_all(level.join(&d));
-                for f in ["x.sym", ".sym", "x", "x.dll", "x.pdb", "x.dbg", "..x.sym", "..x", "..x.pdb", "..x.dll"] {
+                for f in ["x.sym", ".sym", "x", "x.dll", "x.pdb", "x.dbg", "..x.sym", "..x", "..x.pdb", "..x.dll", "...sym", "...pdb", "...dll", "...dbg"] {
                     let _ = std::fs::write(level.join(&d).join(f), SYM);
                 }
             }
